@@ -94,7 +94,7 @@ CLAIMS = {
             "for every history of setter calls (colour arguments RGB(A) arrays or strings free of quote, '<', '&'), every image "
             "string, every built-in frame shape and every matrix of a legal size, the rendering is well-formed and passes the WHOLE "
             "reading Spec.SvgParse.check demands (generic printer/recogniser round trip + string plumbing of the format! pieces + "
-            "numbers of the frame only contain digits, '-', '.'). On every run Spec.SvgParse (an XML-subset recogniser "
+            "numbers of the frame only contain digits, '-', '.'); C12_document_built / C12_wellformed_built: the same for every symbol the model builder returns, size hypothesis discharged by C03_invariance. On every run Spec.SvgParse (an XML-subset recogniser "
             "in Lean) reads the REAL rendering: well-formed, viewBox/background, per layer exactly one sub-path per dark module "
             "in place, colours, one image element whose un-escaped href is the string. Defect found and fixed (href was not escaped).",
             "Trusted: Lean kernel; hand model tied by byte-exact string correspondence; Spec.SvgParse as the reading of 'well-formed' and 'anchored at'.",
